@@ -39,7 +39,33 @@ let show_zone z =
   let l = List.sort compare (List.map key z) in
   if l = [] then "-" else
   String.concat "." (List.map (fun (t, v) -> (if t = 0 then "S" else "O") ^ string_of_int v) l)
+let parse_kdt w = match String.split_on_char '.' w with
+  | [k; d; t] -> (num k, num d, num t) | _ -> failwith "kdt"
+let build_pub ws =
+  (* data in listed order per key *)
+  List.fold_left (fun st w -> let (k, d, t) = parse_kdt w in
+    let old = match s_get k st with Some (_, ds) -> ds | None -> [] in
+    s_set k (t, old @ [d]) st) [] ws
+let parse_dop w =
+  match String.split_on_char ':' w with
+  | ["DA"] -> DDeleteAll | ["BD"] -> DBatch
+  | ["A"; r] -> let (k, d, t) = parse_kdt r in DAdd (k, d, t)
+  | ["D"; r] -> let (k, d, t) = parse_kdt r in DDel (k, d, t)
+  | ["BA"; r] -> let (_, d, t) = parse_kdt r in DSoa (d, t)
+  | ["F"; r] -> let (_, d, t) = parse_kdt r in DFinish (d, t)
+  | _ -> failwith "dop"
+let show_side (st : (n * (n * n list)) list) =
+  let l = List.sort compare (List.map (fun (k, (t, ds)) ->
+    (int_of_n k, int_of_n t, List.sort compare (List.map int_of_n ds))) st) in
+  String.concat "," (List.map (fun (k, t, ds) ->
+    Printf.sprintf "%d:%d:%s" k t (String.concat "." (List.map string_of_int ds))) l)
+let show_diff = function
+  | None -> "none"
+  | Some (r, a) -> "R[" ^ show_side r ^ "]A[" ^ show_side a ^ "]"
 let handle = function
+  | ["df"; pub; ops] ->
+    let ds = c10_diff (build_pub (split_on ',' pub)) (List.map parse_dop (split_on ',' ops)) in
+    String.concat " " (List.map show_diff ds)
   | "x" :: ms -> let (us, s) = c10_run (parse_msgs ms) in show_upds us ^ " " ^ show_status s
   | ["ap"; z0; us] ->
     (match c10_apply (List.map parse_rr (split_on '.' z0)) (List.map parse_upd (split_on ',' us)) with
